@@ -215,8 +215,8 @@ def search(seed=0, reduced=False):
             compare("second solve() of one TDGLSolver instance", s.solve())
         guarded("solver solved before", h_twice)
 
-        if not reduced:
-            # ---- output path reused
+        if True:
+            # ---- output path reused (also in the reduced quick-tier run: a reader-side memo keyed by the path shows only here)
             def h_path():
                 p = os.path.join(td, "reused.h5")
                 o = _mk_options(tdgl, p, screening=False)
@@ -225,6 +225,19 @@ def search(seed=0, reduced=False):
                 first = run(fresh_device(), o, 0.7, None)
                 _ = first.times, first.dynamics
                 first.delete_hdf5()
+                # ... and one more earlier run at that path that recorded exactly as many frames as the run under test (fixed steps, same save interval):
+                # whatever a reader or writer remembers about "the file at this path with these frames" belongs to a file that no longer exists
+                n_fr = len([k for k in ref if k.endswith("/attr/time")])
+                o2 = _mk_options(tdgl, p, screening=False)
+                o2.adaptive, o2.dt_init, o2.dt_max = False, 1e-3, 1e-3
+                o2.solve_time = ((n_fr - 1) * o2.save_every - 0.5) * 1e-3
+                second = run(fresh_device(), o2, 0.3, None)
+                _ = second.times, second.dynamics, second.tdgl_data
+                with __import__("h5py").File(second.path, "r") as f_:
+                    same_count = len(f_["data"]) == n_fr
+                second.delete_hdf5()
+                if not same_count:
+                    bad.append(dict(history="output path used before", what="harness: the earlier run did not record as many frames as the run under test"))
                 f, c = _mk_drive(tdgl)
                 sol = run(fresh_device(), _mk_options(tdgl, p), f, c)
                 compare("output path used before by another (deleted) run", sol)
